@@ -4,6 +4,8 @@ Case lines (see harness.cpp / driver.ml):
   hist  <kind> <w> <bits> <k> <op>*k     history on the two-register machine, observers after every step
   words <kind> <w> <bits> <k> <op>*k     same history, raw storage words after every step (impl = model only)
   tostr <bits> <len> <codes> <zero> <one>              to_string with custom characters, two capacities
+  wstr <bits> <len> <codes> <pos> <n> <zero> <one>    string constructor and to_string with wchar_t
+  cistr <bits> <len> <codes> <pos> <n> <zero> <one>   the same with a case-insensitive traits class (codes = lower case)
   popfb <w> <x>                                        popcount_fallback (constexpr path) and popcount
   ct <kind> <w> <bits>                                 two fixed scripts evaluated by the compiler (constant evaluation)
 kind = bs (etl::bitset<bits>, w = 64) | bb (etl::basic_bitset<bits, uint<w>_t>)
@@ -37,7 +39,8 @@ RULE = ("widths {1,7,8,9,31,32,33,63,64,65,127,128,129} and 257 (count() beyond 
         "x &= x, x |= x, x ^= x), every second one also replayed as a raw-storage (words) comparison; string constructors with "
         "lengths around the width, pos/n around the ends, custom and coinciding zero/one, foreign characters inside "
         "and outside the used range; the char const* constructors (counted and NUL-terminated, a NUL inside the array, NUL as "
-        "zero/one character, all-default overload); every mutator's returned reference is compared with the object, "
+        "zero/one character, all-default overload); the string constructor and to_string with wchar_t (codes above 8 and "
+        "16 bits) and with a traits class whose eq() is case-insensitive; every mutator's returned reference is compared with the object, "
         "size(), != and copy == original are checked after every step; to_string with custom characters; "
         "popcount fallback exhaustively for 8 bit and on boundary/random values above. "
         "non-trivial = distinct case line with at least one non-contract step and a set bit somewhere")
@@ -65,10 +68,8 @@ def positions(bits, w, rng, k=3):
 def bad_positions(bits, w, far=False):
     top = nwords(bits, w) * w
     # 256 / 65536 + a valid position: a position truncated to an 8 / 16 bit type would look valid again
-    # (the 65536 ones only where far=True: a unary position of that size costs the extracted model ~5 ms)
+    # (65536 + a valid position: own line per width and class in gen(), block C)
     c = {bits, bits + 1, top - 1, top, top + 1, bits + 64, bits + 200, 256, 256 + bits - 1}
-    if far:
-        c |= {65536, 65536 + bits // 2}
     return sorted(c - set(range(bits)))
 
 
@@ -211,6 +212,8 @@ def string_cases(rng, bits, quick):
         for pos in poss:
             rem = max(ln - pos, 0)
             ns = sorted({0, 1, bits - 1, bits, bits + 1, rem, rem + 1, max(rem - 1, 0), NPOS, NPOS - 1} - {-1})
+            if quick and bits > 129:
+                ns = sorted(set(rng.sample(ns, 4)) | {NPOS})
             for n in ns:
                 reps = 1 if quick else 4
                 for _ in range(reps):
@@ -232,12 +235,13 @@ def string_cases(rng, bits, quick):
     # char const* constructor: counted / NUL-terminated, NUL inside the array, NUL as zero or one, foreign characters
     for ln in lens:
         for counted in (0, 1):
-            for zero, one in ((48, 49), (65, 66), (0, 49), (32, 0), (120, 120)):
-                for variant in range(3 if quick else 8):
+            for zero, one in (((48, 49), (0, 49), (32, 0)) if quick else ((48, 49), (65, 66), (0, 49), (32, 0), (120, 120))):
+                for variant in range((3 if bits <= 65 else 2) if quick else 8):
                     s = rand_str(rng, ln, zero, one)
-                    if ln > 0 and variant % 3 == 1:
+                    what = variant % 3 if (not quick or bits <= 65 or variant == 0) else rng.choice([1, 2])
+                    if ln > 0 and what == 1:
                         s[rng.randrange(ln)] = 0
-                    if ln > 0 and variant % 3 == 2:
+                    if ln > 0 and what == 2:
                         s[rng.randrange(ln)] = rng.choice([c for c in (50, 47, 97, 255) if c not in (zero, one)])
                     ops = [cstr_op(s, counted, zero, one)]
                     if bits > 1:
@@ -245,6 +249,28 @@ def string_cases(rng, bits, quick):
                     out.append(hist("bs", 64, bits, ["sa"] + ops))
                     if variant == 0:
                         out.append(words("bs", 64, bits, ops))
+    # wchar_t: codes beyond 8 and 16 bits, zero/one differing only above bit 8 / bit 16
+    walph = [(48, 49), (0x4E00, 0x4E01), (0x130, 0x30), (0x10041, 0x41), (0x7FFFFFFF, 0), (0x263A, 0x1F600)]
+    for ln in lens:
+        for pos, n in ((0, NPOS), (1, NPOS), (0, bits), (2, max(bits - 1, 1)), (ln, NPOS), (ln + 1, 0)):
+            for zero, one in (walph if not quick else [walph[rng.randrange(len(walph))], walph[rng.randrange(len(walph))]]):
+                s = rand_str(rng, ln, zero, one)
+                out.append("wstr %d %s %d %d %d %d" % (bits, " ".join(map(str, [len(s)] + s)), pos, n, zero, one))
+                if ln > 0:
+                    t = list(s)
+                    # a foreign character that only differs from zero / one in the high bits
+                    t[rng.randrange(ln)] = rng.choice([zero ^ 0x100, one ^ 0x10000, 50])
+                    out.append("wstr %d %s %d %d %d %d" % (bits, " ".join(map(str, [len(t)] + t)), pos, n, zero, one))
+    # a traits class with a coarser eq (case-insensitive letters); the codes are the lower-case representatives
+    for ln in lens:
+        for pos, n in ((0, NPOS), (1, bits), (ln // 2, NPOS)):
+            for zero, one in ((97, 98), (122, 48), (49, 120)):
+                s = rand_str(rng, ln, zero, one)
+                out.append("cistr %d %s %d %d %d %d" % (bits, " ".join(map(str, [len(s)] + s)), pos, n, zero, one))
+                if ln > 0 and rng.random() < 0.5:
+                    t = list(s)
+                    t[rng.randrange(ln)] = rng.choice([99, 50, 64])
+                    out.append("cistr %d %s %d %d %d %d" % (bits, " ".join(map(str, [len(t)] + t)), pos, n, zero, one))
     for _ in range(10 if quick else 100):
         zero, one = rng.choice(alph[:5])
         if zero == one:
@@ -322,18 +348,26 @@ def gen(tier, rng):
             ops += ["t %d" % p for p in positions(bits, w, rng)] + ["t %d" % p for p in bad_positions(bits, w)]
             for p in positions(bits, w, rng):
                 ops += ["s %d 1" % p, "f %d" % p, "rf %d" % p, "rs %d 1" % p, "r %d" % p, "s %d 1" % p]
-            for p in bad_positions(bits, w, far=True):
+            for p in bad_positions(bits, w):
                 ops += ["s %d 1" % p, "f %d" % p, "rf %d" % p, "rs %d 1" % p, "r %d" % p, "rc 0 %d" % p, "rc %d 0" % p,
                         "rcs 0 %d" % p, "rcs %d 0" % p]
             # aliased operands at every width: proxy copy between the boundary positions of one object, x op= x
             ops += ["ra"]
             bp = positions(bits, w, rng)
+            if len(bp) > 24:   # many words: the two ends and a sample of the boundaries in between
+                bp = sorted(set(bp[:8] + bp[-8:] + rng.sample(bp, 8)))
             for i, p in enumerate(bp):
                 ops += ["s %d 1" % p, "rcs %d %d" % (bp[(i + 1) % len(bp)], p), "rcs %d %d" % (p, p),
                         "rcs %d %d" % (p, bp[(i + 2) % len(bp)])]
             ops += ["ors", "ands", "fa", "xors", "sa", "ands", "xors"]
             out.append(hist(kind, w, bits, ops))
             out.append(words(kind, w, bits, ops))
+            # positions that look valid again after a truncation to 16 bits (own short line: a unary position of
+            # that size is expensive for the extracted model)
+            ops = ["sa"]
+            for p in (65536, 65536 + bits // 2):
+                ops += ["f %d" % p, "rs %d 0" % p, "t %d" % p, "r %d" % p]
+            out.append(hist(kind, w, bits, ops))
             # integer constructor boundaries
             ops = []
             for v in sorted(set(int_values(bits, rng, 12 if quick else 200))):
@@ -364,6 +398,8 @@ def nontrivial(case, impl):
         return False
     if case.startswith("ct "):
         return "0" not in impl
+    if case.startswith("wstr") or case.startswith("cistr"):
+        return impl != "contract" and " 49" in impl
     if case.startswith("popfb"):
         return not impl.startswith("0 ")
     return "1" in impl and impl.replace("contract", "").replace(";", "").strip() != ""
